@@ -135,6 +135,7 @@ theorem runActs_wf (acts : List Act) (x : Ctx) {s : S} (h : s.WF) : (runActs s x
       intro i; rw [schedAll_tempi]; exact hb i
     | seed n => exact ih (s := ((s.bumpPc x.rid).newGen n).setRt _ _) hb
     | raise => exact hb
+    | defer r c d => exact ih (s := ((s.bumpPc x.rid).setRt _ _).add _ _ _) hb
     | draw => exact ih (s := { (s.bumpPc x.rid).emit _ with draws := _ }) hb
     | pull r =>
       apply ih
@@ -151,6 +152,7 @@ theorem exec_wf {s : S} (h : s.WF) (e : Entry) : (s.exec e).WF := by
 
 def Act.sysOnly : Act → Bool
   | .spawn _ c => c == .sys
+  | .defer _ c _ => c == .sys
   | _ => true
 
 structure SysOnly (s : S) : Prop where
@@ -296,6 +298,12 @@ theorem runActs_sysOnly (acts : List Act) (x : Ctx) (hx : x.clk = .sys) {s : S} 
       have hg : SysOnly ((s.bumpPc x.rid).newGen n) := hb.of_same rfl (fun _ => ⟨rfl, rfl⟩)
       refine hg.setRt x.rid _ ?_ ?_ <;> first | rfl | simp [hb.clock x.rid]
     | raise => refine hb.setRt x.rid _ ?_ ?_ <;> simp [hb.clock x.rid]
+    | defer r c d =>
+      have hc : c = .sys := by have := hacts (.defer r c d) (by simp); simpa [Act.sysOnly] using this
+      subst hc
+      simp only
+      apply ih'
+      refine SysOnly.add (SysOnly.setRt hb r _ ?_ ?_) _ _ <;> simp [hb.clock r]
     | draw => exact ih' (hb.of_same rfl (fun _ => ⟨rfl, rfl⟩))
     | pull r => exact ih' (hb.pull _ _)
 
@@ -425,6 +433,7 @@ theorem runActs_drawInv (acts : List Act) (x : Ctx) {s : S} (h : DrawInv s) : Dr
       exact ih (hb.of_same (schedAll_trace _ _) (schedAll_draws _ _))
     | seed n => exact ih (hb.of_same (s' := ((s.bumpPc x.rid).newGen n).setRt _ _) rfl rfl)
     | raise => exact hb.of_same rfl rfl
+    | defer r c d => exact ih (hb.of_same (s' := ((s.bumpPc x.rid).setRt _ _).add _ _ _) rfl rfl)
     | pull r => exact ih (pull_drawInv hb _ _)
     | draw =>
       simp only
